@@ -12,6 +12,7 @@ CONSTANTS
   Filts = {"client", "server"}
   Ops = {"pub", "rem", "exp", "sexp", "clear", "refresh", "poscheck"}
   MaxJumps = 0
+  EpochCheck = TRUE
   Pres = {2}
   N0s = {0}
   Contig = TRUE
